@@ -803,6 +803,25 @@ class Interp:
         tgt = self._ctx_function(it.context_expr, env, m)
         if tgt is None:
             v = self.eval(it.context_expr, env, m)
+            if isinstance(v, Obj) and v.cls is not None and getattr(self.sc, "real_objects", False) and self.repo.lookup(v.cls, "__enter__") is not None \
+                    and self.repo.lookup(v.cls, "__exit__") is not None:
+                # a context manager class of the repository: __enter__, the body, __exit__ (with the exception's details when the body
+                # raises; a true result swallows it) - also when the body leaves by return / break / continue
+                entered = self.method(v, "__enter__", [], {}, it.context_expr)
+                if it.optional_vars is not None:
+                    self.assign(it.optional_vars, entered, env, m)
+                try:
+                    self._with(st, k + 1, env, m)
+                except EvalRaise as ex_:
+                    exc_obj = getattr(ex_, "value", None) or Obj(None, {"__traceback__": None, "exc_name": ex_.exc_name, "args": (ex_.msg,)}, "exception")
+                    if self.truth(self.method(v, "__exit__", [("external", "builtins." + ex_.exc_name), exc_obj, None], {}, it.context_expr)):
+                        return
+                    raise
+                except (_Return, _Break, _Continue):
+                    self.method(v, "__exit__", [None, None, None], {}, it.context_expr)
+                    raise
+                self.method(v, "__exit__", [None, None, None], {}, it.context_expr)
+                return
             if it.optional_vars is not None:
                 self.assign(it.optional_vars, v, env, m)
             self._with(st, k + 1, env, m)
@@ -1302,7 +1321,7 @@ class Interp:
             parts_ = r[2].split(".")
             la = self.repo.lookup_attr(c, parts_[0])
             if la is not None and la[2] is not None:
-                v_ = self.eval(la[2], {}, la[0].module)
+                v_ = self.class_attr((la[0], parts_[0], la[2]))  # (one object per scenario, whoever reads it)
                 for a_ in parts_[1:]:  # Cls.ATTR.method: the rest of the chain is read from the value
                     v_ = self.getattr(v_, a_)
                 return v_
@@ -1730,6 +1749,8 @@ class Interp:
             if t[1] in ("numbers.Number", "numbers.Integral", "numbers.Real"):
                 import numbers
                 return isinstance(o, getattr(numbers, n))
+        if isinstance(t, tuple) and t[0] == "external" and getattr(self.sc, "real_objects", False) and not t[1].startswith("builtins."):
+            return False  # a class of a library the scenario does not model: nothing in the scenario is an instance of it
         raise AnalysisError(f"circuit evaluation: isinstance against {t!r}")
 
     def apply(self, f, args, kwargs, node, m):
